@@ -221,7 +221,19 @@ def broad_cases(draw, max_len=12, allow_nullable=True):
         feats.add("doubled")
     assume(names_ok(pattern))
     cont = sorted(draw(st.sets(st.integers(0, len(L) - 1), max_size=3))) if draw(st.integers(0, 2)) == 0 else []
+    # the listing may consist of several `Disassembly of section` blocks and the rule may carry a `sections` list: for a text
+    # listing that list selects nothing (it tells objdump what to disassemble), the instruction sequence is the whole file
+    breaks, sections_cfg = [], None
+    if len(L) >= 3 and draw(st.integers(0, 3)) == 0:
+        ks = sorted(draw(st.sets(st.integers(1, len(L) - 1), min_size=1, max_size=2)))
+        breaks = [[k_, nm_] for k_, nm_ in zip(ks, draw(st.permutations([".plt", ".text.hot", ".fini"])))]
+        sections_cfg = draw(st.sampled_from([None, [".text"], [".text", breaks[-1][1]], [breaks[0][1]], [".nosuch"]]))
+        feats.add("section-blocks")
+        if sections_cfg:
+            feats.add("sections-config")
     return {
+        "section_breaks": breaks,
+        "sections_cfg": sections_cfg,
         "cont": cont,
         "flags": list(full),
         "transparent_addr_range": draw(st.integers(0, 3)) == 0,
@@ -233,3 +245,11 @@ def broad_cases(draw, max_len=12, allow_nullable=True):
         "features": sorted(feats),
         "repeated_addresses": restart_at is not None,
     }
+
+
+def broad_text(case):
+    """The listing text of a broad case (byte-continuation lines and section blocks as drawn)."""
+    from .gen_listing import att_view
+    from .render import render
+
+    return render(att_view(case["listing"]), cont=set(case.get("cont", ())), sections={k_: nm_ for k_, nm_ in case.get("section_breaks", [])} or None)
